@@ -750,6 +750,24 @@ class Interp:
         if not isinstance(call, ast.Call):
             raise Unsupported(f"with on a non-call at {env.mod.site(st)}")
         f = self.eval(call.func, env)
+        if isinstance(f, ClassVal) and f.kind == "plain":
+            # a class with __enter__/__exit__
+            cm = self.apply(f, [self.eval(a_, env) for a_ in call.args], {k_.arg: self.eval(k_.value, env) for k_ in call.keywords},
+                            env.mod.site(st))
+            enter = self.class_attr(f, "__enter__", cm, env.mod.site(st))
+            exit_ = self.class_attr(f, "__exit__", cm, env.mod.site(st))
+            v_ = self.call(enter, [], {}, env.mod.site(st))
+            if item.optional_vars is not None:
+                self.assign(item.optional_vars, v_, env)
+            try:
+                self.exec_block(st.body, env)
+            except RaiseSig as r_:
+                swallowed = self.call(exit_, [ExcVal(r_.exc_name, []), ExcVal(r_.exc_name, []), None], {}, env.mod.site(st))
+                if swallowed is None or not self.truthy(swallowed, env.mod.site(st)):
+                    raise
+                return
+            self.call(exit_, [None, None, None], {}, env.mod.site(st))
+            return
         if not isinstance(f, FuncVal):
             d = dotted(call.func) or ""
             if d.endswith("Lock") or "lock" in d.lower() or d in ("contextlib.nullcontext", "nullcontext", "contextlib.suppress"):
@@ -992,6 +1010,10 @@ class Interp:
                 for st in o.node.body:
                     if isinstance(st, ast.Assign) and any(isinstance(t, ast.Name) and t.id == attr for t in st.targets):
                         return EnumVal(o.name, attr)
+                if attr == "__members__":
+                    return ADict({n_: EnumVal(o.name, n_) for n_, _v, _m in self.enum_members(o.name, site)})
+                if any(isinstance(st, ast.FunctionDef) and st.name == attr for st in o.node.body):
+                    return self.class_attr(o, attr, None, site)      # classmethod / staticmethod of the enum class
                 raise Unsupported(f"enum {o.name} has no member {attr} ({site})")
             return self.class_attr(o, attr, None, site)
         if isinstance(o, Opaque):
@@ -1009,8 +1031,14 @@ class Interp:
         if isinstance(o, EnumVal):
             if attr == "name":
                 return Tmpl.lit(o.member)
-            if attr == "value":
+            if attr in ("value", "_value_"):
+                extra = self.enum_member_attrs(o, site)
+                if "_value_" in extra:
+                    return extra["_value_"]
                 return self.enum_value(o, site)
+            extra = self.enum_member_attrs(o, site)
+            if attr in extra:
+                return extra[attr]
             # a property or method the enum class defines
             for m_ in self.src.modules.values():
                 c_ = m_.classes().get(o.cls)
@@ -1023,12 +1051,51 @@ class Interp:
                 import math as _math
                 return getattr(_math, attr)
             return ExtVal(o.module, (o.attr + "." if o.attr else "") + attr)
-        if isinstance(o, Builtin) and o.name in ("str", "int", "float", "list", "tuple", "dict", "set"):
+        if isinstance(o, Builtin) and o.name in ("str", "int", "float", "list", "tuple", "dict", "set", "object"):
             return Builtin(f"{o.name}.{attr}")
         if isinstance(o, ModuleVal):
             m = self.src.by_dotted(o.name)
             return self.global_lookup(m, attr)
         raise Unsupported(f"attribute {attr} of {type(o).__name__} ({site})")
+
+    def enum_member_attrs(self, ev: "EnumVal", site):
+        """Attributes a member gets from the class's own __init__(self, *value) or __new__(cls, *value) recipe."""
+        cache = self.__dict__.setdefault("_enum_attr_cache", {})
+        key = (ev.cls, ev.member)
+        if key in cache:
+            return cache[key]
+        cache[key] = {}
+        for m_ in self.src.modules.values():
+            c_ = m_.classes().get(ev.cls)
+            if c_ is None or self.class_val(m_, c_).kind != "enum":
+                continue
+            cv = self.class_val(m_, c_)
+            fns = {f.name: f for f in c_.body if isinstance(f, ast.FunctionDef)}
+            if "__init__" not in fns and "__new__" not in fns:
+                break
+            members = self.enum_members(ev.cls, site)
+            idx = [n_ for n_, _v, _m in members].index(ev.member)
+            raw = self.eval(members[idx][1], Env(m_, {}))
+            args = list(raw.items) if isinstance(raw, AList) and raw.pytype == "tuple" else [raw]
+            holder = Obj(cv, {})
+            if "__new__" in fns:
+                env_before = ADict({n_: EnumVal(ev.cls, n_) for n_, _v, _m in members[:idx]})
+                old_hooks = dict(getattr(self, "builtin_hooks", {}))
+                self.builtin_hooks = {**old_hooks, "object.__new__": lambda it_, a_, k_, s_: holder}
+                clsproxy = Opaque("enum-class-under-construction", attrs={"__members__": env_before, "__name__": Tmpl.lit(ev.cls)})
+                try:
+                    self.call(FuncVal(m_, fns["__new__"], None, cv), [clsproxy] + args, {}, site)
+                finally:
+                    self.builtin_hooks = old_hooks
+            if "__init__" in fns:
+                if "_value_" not in holder.attrs:
+                    holder.attrs.setdefault("_value_", raw)
+                self.call(FuncVal(m_, fns["__init__"], holder, cv), args, {}, site)
+                if holder.attrs.get("_value_") is raw and "__new__" not in fns:
+                    holder.attrs.pop("_value_")
+            cache[key] = dict(holder.attrs)
+            break
+        return cache[key]
 
     def enum_members(self, clsname, site):
         for m in self.src.modules.values():
@@ -1156,6 +1223,12 @@ class Interp:
                 return ADigest(o.algo, o.data, o.kind, 0 if lo is None else lo, hi, st)
             raise Unsupported(f"slice of {type(o).__name__} ({site})")
         k = self.eval(n.slice, env)
+        if isinstance(o, ClassVal) and o.kind == "enum":
+            if isinstance(k, Tmpl) and k.is_literal():
+                if any(n_ == k.text() for n_, _v, _m in self.enum_members(o.name, site)):
+                    return EnumVal(o.name, k.text())
+                raise RaiseSig("KeyError", site, k.text())
+            raise Unsupported(f"enum lookup by a computed name at {site}")
         if isinstance(o, AList) and isinstance(k, Num):
             return Indexed(o, k.e)
         if isinstance(o, AList) and isinstance(k, int):
@@ -2819,6 +2892,10 @@ class Interp:
             return args[0]
         if q in ("io.StringIO", "StringIO"):
             return StrBuf([args[0]] if args and isinstance(args[0], Tmpl) else [])
+        if q == "operator.itemgetter" and len(args) > 1 and all(isinstance(a_, int) or (isinstance(a_, Tmpl) and a_.is_literal()) for a_ in args):
+            keys_ = ", ".join(repr(a_) if isinstance(a_, int) else repr(a_.text()) for a_ in args)
+            lam = ast.parse(f"lambda _x: ({', '.join('_x[' + k_.strip() + ']' for k_ in keys_.split(', '))},)", mode="eval").body
+            return self.ev_Lambda(lam, Env(next(iter(self.src.modules.values())), {}))
         if q in ("operator.itemgetter", "operator.attrgetter") and len(args) == 1:
             key_ = args[0]
             fn_src = f"lambda _x: _x[{key_!r}]" if q.endswith("itemgetter") and isinstance(key_, int) else None
